@@ -493,6 +493,163 @@ theorem final_status {sT fT nrep : Nat} (P : Params sT fT nrep) (n : Nat) (rs : 
       · intro h; simp at h
       · intro h; exact absurd h hnot
 
+/-! ### the status as a function of successes and conflicts -/
+
+theorem httpStatus_409_iff (cs : List RCause) (hne : cs ≠ []) (hall : ∀ c, c ∈ cs → ∃ s, c = .sentinel s) :
+    httpStatus (.failed cs) = 409 ↔ ∀ c, c ∈ cs → c = .sentinel .conflict := by
+  have h0 : cs.isEmpty = false := by cases cs <;> simp_all
+  unfold httpStatus writeCause
+  simp only [h0]
+  by_cases hu : cs.any (· == .sentinel .unavailable) = true
+  · simp only [hu]
+    constructor
+    · intro h; simp at h
+    · intro h
+      simp only [List.any_eq_true, beq_iff_eq] at hu
+      obtain ⟨x, hx, rfl⟩ := hu
+      have := h _ hx; simp at this
+  · by_cases hn : cs.any (· == .sentinel .notReady) = true
+    · simp only [hu, hn]
+      constructor
+      · intro h; simp at h
+      · intro h
+        simp only [List.any_eq_true, beq_iff_eq] at hn
+        obtain ⟨x, hx, rfl⟩ := hn
+        have := h _ hx; simp at this
+    · by_cases hc : cs.any (· == .sentinel .conflict) = true
+      · simp only [hu, hn, hc]
+        constructor
+        · intro _ c hcm
+          obtain ⟨s, rfl⟩ := hall c hcm
+          cases s with
+          | conflict => rfl
+          | notReady => exact absurd (List.any_eq_true.mpr ⟨_, hcm, by simp⟩) hn
+          | unavailable => exact absurd (List.any_eq_true.mpr ⟨_, hcm, by simp⟩) hu
+        · intro _; simp
+      · exfalso
+        cases cs with
+        | nil => exact hne rfl
+        | cons c cs =>
+          obtain ⟨s, rfl⟩ := hall c (by simp)
+          cases s <;> simp_all
+
+/-- The status as a function of the per-series counts of successes and of conflicts alone. -/
+theorem final_status_char {sT fT nrep : Nat} (P : Params sT fT nrep) (n : Nat) (rs : List Resp)
+    (hc : Complete n nrep rs) (hwf : ∀ r, r ∈ rs → ∀ k, r.out = some k → wfKind k = true) :
+    (httpStatus (final n fT fT rs) = 200 ↔ ∀ i, i < n → sT ≤ oks rs i) ∧
+    (httpStatus (final n fT fT rs) = 409 ↔
+      (∃ i, i < n ∧ oks rs i < sT) ∧ ∀ i, i < n → oks rs i < sT → fT ≤ conflictsOf rs i) ∧
+    (httpStatus (final n fT fT rs) = 200 ∨ httpStatus (final n fT fT rs) = 409 ∨ httpStatus (final n fT fT rs) = 503) := by
+  have hP := P
+  obtain ⟨s1, s2, s3, s4, s5⟩ := final_status P n rs hc
+  obtain ⟨h1, h2, h3, h4⟩ := P
+  have hf1 : 1 ≤ fT := by omega
+  have hlen : ∀ i, i < n → oks rs i + (errsOf rs i).length = nrep := fun i hi => by
+    rw [oks_add_errs]; exact hc i hi
+  refine ⟨s4, ?_, ?_⟩
+  · -- 409
+    unfold final finish at s1 s4 ⊢
+    cases hcs : collect n fT fT (rs.foldl step St.init) with
+    | nil =>
+      rw [hcs] at s4
+      simp only [List.isEmpty_nil, if_true, httpStatus] at s4 ⊢
+      constructor
+      · intro h; simp at h
+      · rintro ⟨⟨i, hi, hlt⟩, _⟩
+        have := s4.mp trivial i hi; omega
+    | cons c0 cs0 =>
+      have hall : ∀ c, c ∈ c0 :: cs0 → ∃ s, c = RCause.sentinel s := by
+        intro c hc'
+        rw [← hcs] at hc'
+        obtain ⟨i, _, hl, rfl⟩ := mem_collect.mp hc'
+        obtain ⟨s, hs, _⟩ := replCause_sentinel hf1 _ hl
+        exact ⟨s, hs⟩
+      simp only [List.isEmpty_cons, Bool.false_eq_true, if_false]
+      rw [httpStatus_409_iff _ (by simp) hall]
+      constructor
+      · intro hallc
+        refine ⟨?_, ?_⟩
+        · have : c0 ∈ collect n fT fT (rs.foldl step St.init) := by rw [hcs]; simp
+          obtain ⟨i, hi, hl, _⟩ := mem_collect.mp this
+          rw [final_errs] at hl
+          exact ⟨i, hi, by have := hlen i hi; omega⟩
+        · intro i hi hlt
+          have hl : (errsOf rs i).length ≥ fT := by have := hlen i hi; omega
+          have hm : replCause fT (errsOf rs i) ∈ c0 :: cs0 := by
+            rw [← hcs]; exact mem_collect.mpr ⟨i, hi, by rw [final_errs]; exact hl, by rw [final_errs]⟩
+          have := hallc _ hm
+          obtain ⟨s, hs, hs'⟩ := replCause_sentinel hf1 (errsOf rs i) hl
+          by_cases hlt' : conflictsOf rs i < fT
+          · have hne := hs' hlt'
+            rw [hs] at this
+            simp only [RCause.sentinel.injEq] at this
+            exact absurd this hne
+          · unfold conflictsOf at hlt' ⊢; omega
+      · rintro ⟨_, hconf⟩ c hc'
+        rw [← hcs] at hc'
+        obtain ⟨i, hi, hl, rfl⟩ := mem_collect.mp hc'
+        rw [final_errs] at hl ⊢
+        have hlt : oks rs i < sT := by have := hlen i hi; omega
+        have hcf := hconf i hi hlt
+        exact replCause_conflict hP _ (fun k hk => by
+          obtain ⟨r, hr, ho⟩ := mem_errsOf hk
+          exact hwf r hr k ho) (by have := hlen i hi; omega) hcf
+  · by_cases hall : ∀ i, i < n → sT ≤ oks rs i
+    · exact Or.inl (s4.mpr hall)
+    · right
+      unfold final finish at s3 s4 ⊢
+      cases hcs : collect n fT fT (rs.foldl step St.init) with
+      | nil =>
+        rw [hcs] at s4
+        simp only [List.isEmpty_nil, if_true, httpStatus] at s4
+        exact absurd (s4.mp trivial) hall
+      | cons c0 cs0 =>
+        have hall' : ∀ c, c ∈ c0 :: cs0 → ∃ s, c = RCause.sentinel s := by
+          intro c hc'
+          rw [← hcs] at hc'
+          obtain ⟨i, _, hl, rfl⟩ := mem_collect.mp hc'
+          obtain ⟨s, hs, _⟩ := replCause_sentinel hf1 _ hl
+          exact ⟨s, hs⟩
+        simp only [List.isEmpty_cons, Bool.false_eq_true, if_false]
+        exact (httpStatus_failed_sentinels _ (by simp) hall').1
+
+/-! ### re-classified errors -/
+
+/-- the same answers with the errors re-classified by `f` (e.g. by another transport) -/
+def relabel (f : ErrKind → ErrKind) (rs : List Resp) : List Resp := rs.map fun r => ⟨r.ids, r.out.map f⟩
+
+theorem evs_relabel (f : ErrKind → ErrKind) (rs : List Resp) (i : Nat) :
+    evs (relabel f rs) i = (evs rs i).map (Option.map f) := by
+  induction rs with
+  | nil => rfl
+  | cons r rs ih =>
+    simp only [relabel, List.map_cons, evs_cons, List.map_append, List.map_replicate] at ih ⊢
+    rw [ih]
+
+theorem oks_relabel (f : ErrKind → ErrKind) (rs : List Resp) (i : Nat) : oks (relabel f rs) i = oks rs i := by
+  unfold oks
+  rw [evs_relabel, List.countP_map]
+  congr 1
+  funext o
+  cases o <;> rfl
+
+theorem errsOf_relabel (f : ErrKind → ErrKind) (rs : List Resp) (i : Nat) :
+    errsOf (relabel f rs) i = (errsOf rs i).map f := by
+  unfold errsOf
+  rw [evs_relabel]
+  generalize evs rs i = l
+  induction l with
+  | nil => rfl
+  | cons o l ih => cases o <;> simp [ih]
+
+theorem conflictsOf_relabel (f : ErrKind → ErrKind) (hf : ∀ k, (f k).conflict = k.conflict) (rs : List Resp) (i : Nat) :
+    conflictsOf (relabel f rs) i = conflictsOf rs i := by
+  unfold conflictsOf countConflict
+  rw [errsOf_relabel, List.countP_map]
+  congr 1
+  funext k
+  simp [hf]
+
 /-! ### the acknowledgement decision (C22) -/
 
 /-- the answers the loop has taken from the channel when it returns -/
